@@ -37,12 +37,15 @@ def hash2freq (w h : Nat) : Option Nat :=
 def fromFreqBits (w sh cap : Nat) (bs : List Nat) : List Rng :=
   fromFixedDepthCells sh cap (bs.filterMap fun b => (freq2hash w b).map (· >>> sh))
 
+/-- Index range of one hertz range: start rounded down, exclusive end rounded up on a narrower type. -/
+def freqRangeIdx (w : Nat) (r : Rng) : Option Rng :=
+  match freq2hash w r.1, freq2hash w r.2 with
+  | some a, some _ => some (a, narrowUp (64 - w) (freqHash64 r.2))
+  | _, _ => none
+
 /-- `from_freq_ranges_in_hz`. -/
 def fromFreqRangeBits (w sh cap : Nat) (rs : List Rng) : List Rng :=
-  fromMaxdepthRanges sh cap (rs.filterMap fun r =>
-    match freq2hash w r.1, freq2hash w r.2 with
-    | some a, some b => some (a, b)
-    | _, _ => none)
+  fromMaxdepthRanges sh cap (rs.filterMap (freqRangeIdx w))
 
 /-- `from_microsec_since_jd0`: `T::from_u64_idx(t) >> shift`. -/
 def fromMicrosec (w sh cap : Nat) (ts : List Nat) : List Rng :=
@@ -50,6 +53,6 @@ def fromMicrosec (w sh cap : Nat) (ts : List Nat) : List Rng :=
 
 /-- `from_microsec_ranges_since_jd0`. -/
 def fromMicrosecRanges (w sh cap : Nat) (rs : List Rng) : List Rng :=
-  fromMaxdepthRanges sh cap (rs.map fun r => (narrow (64 - w) r.1, narrow (64 - w) r.2))
+  fromMaxdepthRanges sh cap (rs.map fun r => (narrow (64 - w) r.1, narrowUp (64 - w) r.2))
 
 end Moc
